@@ -173,7 +173,7 @@ class _Dedup:
                                                                for k in ids)
 
 
-@contract(DUP.renumber_surfaces, props=['C13', 'C08'], name='Duplicates.renumber_surfaces', status='B')
+@contract(DUP.renumber_surfaces, props=['C13', 'C08', 'C16'], name='Duplicates.renumber_surfaces', status='B')
 class _Renumber:
     """Every surface id of every volume is replaced by its representative, on its own side; nothing else changes."""
     scope = 'volumes with PLUS / MINUS subsets of {1,2,3} and every renumbering of {1,2,3} onto representatives'
